@@ -125,26 +125,29 @@ pub fn install_panic_hook() {
             let mut func = String::new();
             if WANT_BT.with(|w| w.get()) {
                 let bt = std::backtrace::Backtrace::force_capture().to_string();
+                // frames look like "  12: slotted_egraphs::egraph::rebuild::<impl ...>::shrink_slots"
+                let mut chain: Vec<String> = Vec::new();
                 for line in bt.lines() {
                     let l = line.trim();
-                    // frames look like "12: slotted_egraphs::egraph::rebuild::...::shrink_slots"
-                    if let Some(pos) = l.find("slotted_egraphs::") {
-                        let f = &l[pos..];
-                        if f.contains("verif::") {
-                            continue;
+                    let Some((_, name)) = l.split_once(": ") else { continue };
+                    if !name.contains("slotted_egraphs::") || name.contains("::verif::") {
+                        continue;
+                    }
+                    // last path segment that is not a closure / hash
+                    let segs: Vec<&str> = name.split("::").filter(|s| !s.starts_with("{{") && !(s.starts_with('h') && s.len() == 17)).collect();
+                    if let Some(last) = segs.last() {
+                        let last = last.trim_end_matches('>').to_string();
+                        if chain.last() != Some(&last) {
+                            chain.push(last);
                         }
-                        // strip generic hashes
-                        let f = f.split("::h").next().unwrap_or(f);
-                        let mut name = f.to_string();
-                        // drop generic parameter noise
-                        if let Some(p) = name.find('<') {
-                            if let Some(last) = f.rsplit("::").next() {
-                                name = format!("{}..::{}", &name[..p], last);
-                            }
-                        }
-                        func = name;
+                    }
+                    if chain.len() >= 6 {
                         break;
                     }
+                }
+                func = chain.join(" <- ");
+                if std::env::var("SIM_FULL_BT").is_ok() {
+                    eprintln!("{bt}");
                 }
             }
             LAST_PANIC.with(|p| {
